@@ -2,3 +2,5 @@
 From QuillGen Require SrcFacts.
 Lemma src_be_refresh_after_clock : SrcFacts.be_refresh_after_clock = true.
 Proof. vm_compute. reflexivity. Qed.
+Lemma src_be_unbounded_read_follows_chain : SrcFacts.be_unbounded_read_follows_chain = true.
+Proof. vm_compute. reflexivity. Qed.
